@@ -97,6 +97,14 @@ def setup():
         "(fn [counter] (fn [rf] (fn ([] (rf)) ([r] (swap! counter inc) (rf r)) ([r x] (rf r x)))))",
         _st["ns"])
     _st["cache"] = {}
+    _st["core"] = {n: bl.core(n) for n in (
+        "map", "map-indexed", "filter", "remove", "keep", "keep-indexed", "take", "take-while",
+        "take-nth", "drop", "drop-while", "interpose", "partition-all", "partition-by", "distinct",
+        "dedupe", "mapcat", "cat", "comp", "into", "sequence", "transduce", "eduction", "conj",
+        "doall", "vec", "apply", "concat")}
+    _st["fn1"] = [bl.ev(src, _st["ns"]) for src in FN1]
+    _st["fn2"] = [bl.ev(src, _st["ns"]) for src in FN2]
+    _st["fnl"] = [bl.ev(src, _st["ns"]) for src in FNL]
 
 
 def to_val(v):
@@ -164,6 +172,7 @@ def stage_src(st, lazy_arg=None):
 
 
 def compile_form(form, pipe):
+    """The application form as compiled Lisp source (used for the cases marked via=src)."""
     key = (form, repr(pipe))
     fn = _st["cache"].get(key)
     if fn is not None:
@@ -187,19 +196,69 @@ def compile_form(form, pipe):
         else:
             raise ValueError(form)
     fn = bl.ev(src, _st["ns"])
-    if len(_st["cache"]) > 20000:
+    if len(_st["cache"]) > 5000:
         _st["cache"].clear()
     _st["cache"][key] = fn
     return fn
 
 
-def run_form(form, pipe, items, limit):
+def stage_call(st, coll=None):
+    """The same through direct calls of the basilisp.core function objects (no compilation):
+    the transducer arity (coll None) or the lazy arity applied to coll."""
+    name = st[0]
+    p = st[1] if len(st) > 1 else None
+    c = _st["core"]
+    if name in ("map", "filter", "remove", "keep", "take-while", "drop-while", "partition-by"):
+        args = [_st["fn1"][p]]
+    elif name in ("map-indexed", "keep-indexed"):
+        args = [_st["fn2"][p]]
+    elif name in ("take", "take-nth", "drop", "partition-all"):
+        args = [int(p)]
+    elif name == "interpose":
+        args = [to_val(p)]
+    elif name == "mapcat":
+        args = [_st["fnl"][p]]
+    elif name in ("distinct", "dedupe"):
+        args = []
+    elif name == "cat":
+        if coll is None:
+            return c["cat"]
+        return c["apply"](c["concat"], coll)
+    else:
+        raise ValueError(name)
+    if coll is not None:
+        args.append(coll)
+    return c[name](*args)
+
+
+def call_form(form, pipe, coll, probe):
+    c = _st["core"]
+    if form == "lazy":
+        for st in pipe:
+            coll = stage_call(st, coll)
+        return c["doall"](coll)
+    xf = c["comp"](*([stage_call(st) for st in pipe] + [probe]))
+    if form == "into":
+        return c["into"](_st["vec"].vector([]), xf, coll)
+    if form == "sequence":
+        return c["doall"](c["sequence"](xf, coll))
+    if form == "transduce":
+        return c["transduce"](xf, c["conj"], coll)
+    if form == "eduction":
+        return c["vec"](c["eduction"](xf, coll))
+    raise ValueError(form)
+
+
+def run_form(form, pipe, items, limit, via):
     try:
-        fn = compile_form(form, pipe)
         src = Source(items, limit, SLACK if form == "lazy" else 0)
         coll = _st["iterator-seq"](src)
         counter = _st["atom"](0)
-        res = fn(coll, _st["probe"](counter))
+        probe = _st["probe"](counter)
+        if via == "src":
+            res = compile_form(form, pipe)(coll, probe)
+        else:
+            res = call_form(form, pipe, coll, probe)
         elems = [from_val(e) for e in (res if res is not None else [])]
         if form == "lazy":
             return {"e": elems, "p": 0, "c": 0}
@@ -213,9 +272,15 @@ def run_form(form, pipe, items, limit):
 def run(case):
     if case["k"] == "pipe":
         items = [to_val(v) for v in case["input"]]
+        limit = bool(case.get("limit"))
         out = {}
-        for form in case.get("forms", FORMS):
-            out[form] = run_form(form, case["pipe"], items, bool(case.get("limit")))
+        for form in FORMS:
+            out[form] = run_form(form, case["pipe"], items, limit, case.get("via"))
+        # On an unbounded source the lazy form is only observed when the listed prefix suffices:
+        # when a transducing form ran into the limit, what the lazy form returns depends on the
+        # elements beyond the prefix (it is handed SLACK more of them for its read-ahead).
+        if limit and any(out[f].get("err") == "PullLimit" for f in FORMS[1:]):
+            out["lazy"] = {"err": "PullLimit"}
         return out
     if case["k"] == "iterate":
         table = [(repr(k), to_val(v)) for k, v in case["table"]]
